@@ -81,6 +81,11 @@ func fail(check, format string, a ...any) *failure {
 
 var allKinds = ldsgen.Kinds
 
+// drawKinds: the order in which TestFiles draws the kind.  rapid's integer
+// generator favours small indices (and the last one), so the kinds with the
+// largest optional / repetition space stand where the bias helps.
+var drawKinds = []string{"DG2", "DG11", "DG14", "DG12", "DG16", "DG7", "DG1", "SOD", "DG15", "DG13", "COM", "CardAccess", "CardSecurity"}
+
 // pairingNumbers: every data group number tried for the wrong-number pairing
 // (the nine supported ones and the unsupported neighbours).
 var pairingNumbers = []int{0, 1, 2, 3, 4, 5, 6, 7, 8, 9, 10, 11, 12, 13, 14, 15, 16, 17}
@@ -262,7 +267,7 @@ func genOpts() (ldsgen.Opts, bool) {
 // uniformly.
 func TestFiles(t *testing.T) {
 	evid.RapidCheck(t, 5600, 520000, func(rt *rapid.T) {
-		kind := rapid.SampledFrom(allKinds).Draw(rt, "kind")
+		kind := rapid.SampledFrom(drawKinds).Draw(rt, "kind")
 		o, f11open := genOpts()
 		src := rapidSource{rt}
 		if kind == "DG2" && f11open {
